@@ -166,7 +166,7 @@ NET3D = {'harness': 'net3d', 'entry_points': ['GKFparser (from_dh, to_dh, s-dist
                                              'LocalLinearization::s_distance/z_angle/direction/h_diff via LocalNetwork::project_equations', 'AdjEnvelope/AdjCholDec/AdjGSO via LocalNetwork'], 'budget_s': {'quick': 600, 'thorough': 1800}}
 NET3D_BOUNDS = ('; spatial polar networks (harness net3d): one station (optionally set up twice with different circle zero and instrument height), 4 targets at offsets with rational horizontal and slope distances, '
                 'one of them fixed, directions + slope distances + zenith angles + 4 height differences, with and without instrument / target heights; error-free (C06) or symbolic errors with the errors of a direction set in increasing order (C01, C02); first linearised adjustment only')
-NET3D_OUT = '; spatial networks: re-linearisation (approximate coordinates computed by Acord2 from slope observations with instrument heights are 0.1-0.2 m off and need iterations); an independent oracle for their design matrix (C01 there uses the equations gama hands out)'
+NET3D_OUT = '; spatial networks: re-linearisation iterations; an independent oracle for their design matrix (C01 there uses the equations gama hands out)'
 for _pid, _site in {'C01': 'net3d-agree', 'C02': 'net3d-agree', 'C06': 'net3d-consistent'}.items():
     PROPS[_pid]['e1'].append(dict(NET3D)); PROPS[_pid]['must_reach'].append(_site)
     PROPS[_pid]['bounds'] = PROPS[_pid]['bounds'] + NET3D_BOUNDS
@@ -184,5 +184,5 @@ for _pid in ('C01', 'C02'):
 PROPS['C12']['e1'].append(dict(NET2D)); PROPS['C12']['must_reach'].append('net2d-xml')
 PROPS['C12']['bounds'] = PROPS['C12']['bounds'] + '; plane networks (net2d/xml): 4 networks with directions, distances, angles: adjusted points, orientation shifts (approximate and adjusted, wrapped to [0,400) gon), observed and adjusted directions / angles / distances, qrr, counts and sum of squares read back; errors below 1e-7 rad / 0.01 mm'
 
-PROPS['C06']['bounds'] = PROPS['C06']['bounds'] + '; resections through Acord2: three hand-made ones and a fixed family of 24 (thorough 60) pseudo-random two-angle resections in integer geometries (general position; the circles of the Angle_angle construction cut at sin >= 0.11, inside what Acord2 documents as resolvable; constants compared numerically at 512 bits)'
+PROPS['C06']['bounds'] = PROPS['C06']['bounds'] + '; spatial networks also with omitted coordinates (Acord2) for every spec, incl. instrument 1 m / prism poles 2.5-3.25 m and a free station (coordinates and height omitted) surveying two new points; resections through Acord2: three hand-made ones and a fixed family of 24 (thorough 60) pseudo-random two-angle resections in integer geometries (general position; the circles of the Angle_angle construction cut at sin >= 0.11, inside what Acord2 documents as resolvable; constants compared numerically at 512 bits)'
 PROPS['C12']['bounds'] = PROPS['C12']['bounds'] + '; two of the plane networks also in the inconsistent frame "en"'
